@@ -63,6 +63,12 @@ def audit_sources():
     return hits
 
 
+def stems_of(pid):
+    pf_path = os.path.join(ROOT, "lib", "propfiles.json")
+    pfiles = json.load(open(pf_path)).get(pid) if os.path.exists(pf_path) else None
+    return [e["file"] for e in pfiles] if pfiles else [pid]
+
+
 def proof_gate(pid, tier):
     """-> (ok, obligations, discharged, detail dict)"""
     spec = P.PROPS[pid]
@@ -229,8 +235,10 @@ def main():
         "property_id": pid, "tier": tier, "seed": seed, "level": "proof",
         "coverage": {
             "obligations": obligations, "discharged": discharged,
-            "checker_cmd": "cd coq && coq_makefile -f _CoqProject -o Makefile && make -j16 && coqc -Q . Deltio Props/%s.v"
-                           % pid + (" && coqchk -o -Q . Deltio Deltio.Props.%s" % pid if tier == "thorough" else ""),
+            "checker_cmd": "cd coq && coq_makefile -f _CoqProject -o Makefile && make -j16 && "
+                           + " && ".join("coqc -Q . Deltio Props/%s.v" % x for x in stems_of(pid))
+                           + (" && coqchk -o -Q . Deltio " + " ".join("Deltio.Props." + x for x in stems_of(pid))
+                              if tier == "thorough" else ""),
             "trusted_base": spec["trusted_base"],
             "theorems": gdetail.get("theorems", {}),
             "evaluations": stats["evaluations"],
